@@ -63,9 +63,12 @@ def run(rep, drv):
 				'support: s_s_cost_discrete vs exact model + certificate verified exactly + stationary-distribution oracle; s_s_discrete_exact vs model search and '
 				'exhaustive window; Poisson entry point vs the custom-pmf entry point on the Poisson pmf. non-trivial = S-s >= 2')
 	certs = 0
+	shared = []          # ONE list object handed to the library again and again, its contents replaced in place between the calls
 	for k in range(1200 if th else 160):
 		pmf = gen_pmf(rng)
 		D = len(pmf) - 1
+		if k % 3 == 1 and shared and len(shared) == len(pmf):
+			pass          # same length as the previous contents: the in-place edit below keeps the object and its length
 		h = F(rng.randint(1, 6), 2); b = F(rng.randint(2, 30), 2); K = F(rng.randint(1, 40), 2)
 		s = rng.randint(-3, 6); S = s + rng.randint(1, 2 * D + 4)
 		case = {'pmf': frs(pmf), 'h': fr(h), 'b': fr(b), 'K': fr(K), 's': s, 'S': S}
@@ -74,7 +77,14 @@ def run(rep, drv):
 		try:
 			with warnings.catch_warnings():
 				warnings.simplefilter('ignore')
-				py = float(s_s_cost_discrete(s, S, float(h), float(b), float(K), False, demand_hi=D, demand_pmf=[float(q) for q in pmf]))
+				if k % 4 in (0, 1, 2):          # runs of consecutive calls with the same object (a cache keyed by the object would go stale)
+					shared[:] = [float(q) for q in pmf]          # edited in place, same object as in the earlier calls
+					arg = shared; rep.count('ss:pmf-list-reused-and-edited-in-place')
+				else:
+					arg = [float(q) for q in pmf]
+				py = float(s_s_cost_discrete(s, S, float(h), float(b), float(K), False, demand_hi=D, demand_pmf=arg))
+				if arg is shared and shared != [float(q) for q in pmf]:
+					py = 'error:the pmf argument was altered'
 		except Exception as e:
 			py = 'error:' + err_enum(e)
 		mo = drv.call('sscost', **case)
